@@ -1,0 +1,151 @@
+//! `cfg(libp2p_verif)` only: public wrappers around the crate-private peer iterators, for the
+//! verification harness (property C39). Every function only forwards to the existing code.
+
+use std::{num::NonZeroUsize, time::Duration};
+
+use libp2p_identity::PeerId;
+use web_time::Instant;
+
+use super::{
+    PeersIterState,
+    closest::{ClosestPeersIter, ClosestPeersIterConfig, disjoint::ClosestDisjointPeersIter},
+    fixed::FixedPeersIter,
+};
+use crate::kbucket::Key;
+
+/// Owned copy of `PeersIterState`.
+#[derive(Debug, Clone, PartialEq, Eq)]
+pub enum St {
+    Waiting(Option<PeerId>),
+    WaitingAtCapacity,
+    Finished,
+}
+
+fn conv(s: PeersIterState<'_>) -> St {
+    match s {
+        PeersIterState::Waiting(p) => St::Waiting(p.map(|c| c.into_owned())),
+        PeersIterState::WaitingAtCapacity => St::WaitingAtCapacity,
+        PeersIterState::Finished => St::Finished,
+    }
+}
+
+fn config(parallelism: NonZeroUsize, num_results: NonZeroUsize, peer_timeout: Duration) -> ClosestPeersIterConfig {
+    ClosestPeersIterConfig {
+        parallelism,
+        num_results,
+        peer_timeout,
+    }
+}
+
+pub struct Closest(ClosestPeersIter);
+
+impl Closest {
+    pub fn with_config(
+        parallelism: NonZeroUsize,
+        num_results: NonZeroUsize,
+        peer_timeout: Duration,
+        target: PeerId,
+        known: Vec<PeerId>,
+    ) -> Self {
+        Closest(ClosestPeersIter::with_config(
+            config(parallelism, num_results, peer_timeout),
+            Key::from(target),
+            known.into_iter().map(Key::from),
+        ))
+    }
+    pub fn next(&mut self, now: Instant) -> St {
+        conv(self.0.next(now))
+    }
+    pub fn on_success(&mut self, peer: &PeerId, closer: Vec<PeerId>) -> bool {
+        self.0.on_success(peer, closer)
+    }
+    pub fn on_failure(&mut self, peer: &PeerId) -> bool {
+        self.0.on_failure(peer)
+    }
+    pub fn num_waiting(&self) -> usize {
+        self.0.num_waiting()
+    }
+    pub fn waiting(&self) -> Vec<PeerId> {
+        self.0.waiting().cloned().collect()
+    }
+    pub fn is_waiting(&self, peer: &PeerId) -> bool {
+        self.0.is_waiting(peer)
+    }
+    pub fn finish(&mut self) {
+        self.0.finish()
+    }
+    pub fn is_finished(&self) -> bool {
+        self.0.is_finished()
+    }
+    pub fn into_result(self) -> Vec<PeerId> {
+        self.0.into_result().collect()
+    }
+    pub fn result(&self) -> Vec<PeerId> {
+        self.0.clone().into_result().collect()
+    }
+}
+
+pub struct Fixed(FixedPeersIter);
+
+impl Fixed {
+    pub fn new(peers: Vec<PeerId>, parallelism: NonZeroUsize) -> Self {
+        Fixed(FixedPeersIter::new(peers, parallelism))
+    }
+    pub fn next(&mut self) -> St {
+        conv(self.0.next())
+    }
+    pub fn on_success(&mut self, peer: &PeerId) -> bool {
+        self.0.on_success(peer)
+    }
+    pub fn on_failure(&mut self, peer: &PeerId) -> bool {
+        self.0.on_failure(peer)
+    }
+    pub fn finish(&mut self) {
+        self.0.finish()
+    }
+    pub fn is_finished(&self) -> bool {
+        self.0.is_finished()
+    }
+    pub fn into_result(self) -> Vec<PeerId> {
+        self.0.into_result().collect()
+    }
+}
+
+pub struct Disjoint(ClosestDisjointPeersIter);
+
+impl Disjoint {
+    pub fn with_config(
+        parallelism: NonZeroUsize,
+        num_results: NonZeroUsize,
+        peer_timeout: Duration,
+        target: PeerId,
+        known: Vec<PeerId>,
+    ) -> Self {
+        Disjoint(ClosestDisjointPeersIter::with_config(
+            config(parallelism, num_results, peer_timeout),
+            Key::from(target),
+            known.into_iter().map(Key::from),
+        ))
+    }
+    pub fn next(&mut self, now: Instant) -> St {
+        conv(self.0.next(now))
+    }
+    pub fn on_success(&mut self, peer: &PeerId, closer: Vec<PeerId>) -> bool {
+        self.0.on_success(peer, closer)
+    }
+    pub fn on_failure(&mut self, peer: &PeerId) -> bool {
+        self.0.on_failure(peer)
+    }
+    pub fn finish_paths(&mut self, peers: &[PeerId]) -> bool {
+        self.0.finish_paths(peers.iter())
+    }
+    pub fn finish(&mut self) {
+        self.0.finish()
+    }
+    pub fn is_finished(&self) -> bool {
+        self.0.is_finished()
+    }
+    pub fn into_result(self) -> Vec<PeerId> {
+        self.0.into_result().collect()
+    }
+}
